@@ -1,5 +1,5 @@
 import Props.C03
-import Proofs.PowCurve
+import Proofs.PowExt
 /-! C03, accuracy clause for the pure power-law family (BT.1886 and its four aliases, BT.470M, BT.470BG), both
 directions, fastmath build, both FMA modes: for EVERY binary32 value in [0,1] (zero of either sign, subnormals, normals)
 the curve returns a finite value within 2.5e-4 of the defining formula `x^γ` / `x^(1/γ)` over the reals.
@@ -59,12 +59,55 @@ theorem near_of (a : Nat) (q : ℚ) (h1 : finiteB a = true) (h2 : |ratOf a - q| 
   push_cast at this ⊢
   exact this
 
+theorem exp2_wf (fm : Bool) (z r : Nat) (h : exp2 fm z = .ok r) : WF r := by
+  unfold exp2 at h
+  dsimp only at h
+  cases hq : toI32Unchecked (sub (exp2Clamp z) C.exp2_f2) with
+  | ub => rw [hq] at h; cases h
+  | ok i => rw [hq] at h; injection h with h; rw [← h]; unfold exp2Val; exact mul_wf _ _
+
+theorem powf_wf (B : Build) (hB : B.fastmath = true) (x y r : Nat) (h : powf B x y = .ok r) : WF r := by
+  unfold powf at h; rw [if_pos hB] at h
+  exact exp2_wf _ _ _ h
+
+/-- what the curve proofs need from `powf` in a given build: on bases in `[0, 1 + 1e-6]` and exponents next to a real
+`γ ∈ [0.35, 3]`, a well-formed finite result within `c0 + c1 γ` of `x^γ`. The fast path provides it with
+`c0 = 1.922e-4, c1 = 7.914e-6` (`fast_oracle`); without `fastmath` it is a hypothesis on the libm parameter. -/
+def PowOracle (B : Build) (c0 c1 : ℝ) : Prop :=
+  ∀ (x y : Nat) (γ : ℝ), WF x → Finite x → 0 ≤ toReal x → toReal x ≤ 1 + 1 / 10 ^ 6 → Finite y →
+    35 / 100 ≤ γ → γ ≤ 3 → |toReal y - γ| ≤ 1 / 10 ^ 6 →
+    ∃ r, powf B x y = .ok r ∧ WF r ∧ Finite r ∧ |toReal r - (toReal x) ^ γ| ≤ c0 + c1 * γ
+
+theorem fast_oracle (B : Build) (hB : B.fastmath = true) : PowOracle B (1922 / 10 ^ 7) (7914 / 10 ^ 9) := by
+  intro x y γ hxw hx h0 h1 hy hγ1 hγ2 hyγ
+  have hp : powf B x y = powfFast B.fma x y := by unfold powf; rw [if_pos hB]
+  obtain ⟨r, hr1, hr2, hr3⟩ := PowCurve.pow_unit_ext B.fma x y γ hxw hx h0 h1 hy hγ1 hγ2 hyγ
+  refine ⟨r, by rw [hp]; exact hr1, powf_wf B hB x y r (by rw [hp]; exact hr1), hr2, ?_⟩
+  linarith
+
+/-- a curve is within `ε` of a real function on every binary32 of `[0, 1]` -/
+def CurveWithinB (f : Nat → Out Nat) (spec : ℝ → ℝ) (ε : ℝ) : Prop :=
+  ∀ x : Nat, WF x → Finite x → 0 ≤ toReal x → toReal x ≤ 1 →
+    ∃ r, f x = .ok r ∧ Finite r ∧ |toReal r - spec (toReal x)| ≤ ε
+
+/-- a power-law branch `if x < 0 { 0 } else { powf(x, y) }` against `x^γ`, for any build meeting the oracle -/
+theorem pow_branch_o (B : Build) (c0 c1 : ℝ) (ho : PowOracle B c0 c1) (thr zero yb : Nat) (γ : ℝ) (hthr : Finite thr ∧ toReal thr = 0)
+    (hy : Finite yb) (hyγ : |toReal yb - γ| ≤ 1 / 10 ^ 6) (hγ1 : 35 / 100 ≤ γ) (hγ2 : γ ≤ 3) :
+    CurveWithinB (fun x => if lt x thr then Out.ok zero else powf B x yb) (fun X => X ^ γ) (c0 + c1 * γ) := by
+  intro x hxw hx h0 h1
+  simp only
+  rw [not_lt_zero x thr hx hthr h0]
+  simp only [Bool.false_eq_true, if_false]
+  obtain ⟨r, hr1, _, hr2, hr3⟩ := ho x yb γ hxw hx h0 (by linarith) hy hγ1 hγ2 hyγ
+  exact ⟨r, hr1, hr2, hr3⟩
+
 /-- what the property says about one direction of one curve: on every binary32 of `[0,1]` the result is finite and
 within 2.5e-4 of `x^γ` -/
 def CurveWithin (f : Nat → Out Nat) (γ : ℝ) : Prop :=
   ∀ x : Nat, WF x → Finite x → 0 ≤ toReal x → toReal x ≤ 1 →
     ∃ r, f x = .ok r ∧ Finite r ∧ |toReal r - (toReal x) ^ γ| < 25 / 10 ^ 5
 
+section fast
 variable (B : Build) (hB : B.fastmath = true)
 include hB
 
@@ -131,5 +174,45 @@ theorem power_law_curves (t : TC) (ht : t ∈ powerLaw) :
     | exact ⟨⟨_, rfl, bt1886_to_linear B hB⟩, ⟨_, rfl, by simp only [gammaOf]; rw [e24]; exact bt1886_to_gamma B hB⟩⟩
     | exact ⟨⟨_, rfl, bt470m_to_linear B hB⟩, ⟨_, rfl, by simp only [gammaOf]; rw [e22]; exact bt470m_to_gamma B hB⟩⟩
     | exact ⟨⟨_, rfl, bt470bg_to_linear B hB⟩, ⟨_, rfl, by simp only [gammaOf]; rw [e28]; exact bt470bg_to_gamma B hB⟩⟩
+
+
+end fast
+
+/-! ### the same six curves for any build meeting the oracle (used for the build without `fastmath`, C20) -/
+section oracle
+variable (B : Build) (c0 c1 : ℝ) (ho : PowOracle B c0 c1)
+include ho
+
+theorem bt1886_to_linear_o : CurveWithinB (rec_1886_eotf B) (fun X => X ^ ((24:ℝ) / 10)) (c0 + c1 * (24 / 10)) := by
+  obtain ⟨a1, a2, _, _, _, _, _, _, _, _, _, _, e1, e2, _⟩ := cert_exponents
+  obtain ⟨fy, vy⟩ := near_of _ _ e1 e2
+  exact pow_branch_o B c0 c1 ho _ _ _ (24 / 10) (zero_of _ a1 a2) fy (by push_cast at vy; exact vy) (by norm_num) (by norm_num)
+
+theorem bt1886_to_gamma_o : CurveWithinB (rec_1886_inverse_eotf B) (fun X => X ^ ((10:ℝ) / 24)) (c0 + c1 * (10 / 24)) := by
+  obtain ⟨_, _, a1, a2, _, _, _, _, _, _, _, _, _, _, e1, e2, _⟩ := cert_exponents
+  obtain ⟨fy, vy⟩ := near_of _ _ e1 e2
+  exact pow_branch_o B c0 c1 ho _ _ _ (10 / 24) (zero_of _ a1 a2) fy (by push_cast at vy; exact vy) (by norm_num) (by norm_num)
+
+theorem bt470m_to_linear_o : CurveWithinB (rec_470m_oetf B) (fun X => X ^ ((22:ℝ) / 10)) (c0 + c1 * (22 / 10)) := by
+  obtain ⟨_, _, _, _, a1, a2, _, _, _, _, _, _, _, _, _, _, e1, e2, _⟩ := cert_exponents
+  obtain ⟨fy, vy⟩ := near_of _ _ e1 e2
+  exact pow_branch_o B c0 c1 ho _ _ _ (22 / 10) (zero_of _ a1 a2) fy (by push_cast at vy; exact vy) (by norm_num) (by norm_num)
+
+theorem bt470m_to_gamma_o : CurveWithinB (rec_470m_inverse_oetf B) (fun X => X ^ ((10:ℝ) / 22)) (c0 + c1 * (10 / 22)) := by
+  obtain ⟨_, _, _, _, _, _, a1, a2, _, _, _, _, _, _, _, _, _, _, e1, e2, _⟩ := cert_exponents
+  obtain ⟨fy, vy⟩ := near_of _ _ e1 e2
+  exact pow_branch_o B c0 c1 ho _ _ _ (10 / 22) (zero_of _ a1 a2) fy (by push_cast at vy; exact vy) (by norm_num) (by norm_num)
+
+theorem bt470bg_to_linear_o : CurveWithinB (rec_470bg_oetf B) (fun X => X ^ ((28:ℝ) / 10)) (c0 + c1 * (28 / 10)) := by
+  obtain ⟨_, _, _, _, _, _, _, _, a1, a2, _, _, _, _, _, _, _, _, _, _, e1, e2, _⟩ := cert_exponents
+  obtain ⟨fy, vy⟩ := near_of _ _ e1 e2
+  exact pow_branch_o B c0 c1 ho _ _ _ (28 / 10) (zero_of _ a1 a2) fy (by push_cast at vy; exact vy) (by norm_num) (by norm_num)
+
+theorem bt470bg_to_gamma_o : CurveWithinB (rec_470bg_inverse_oetf B) (fun X => X ^ ((10:ℝ) / 28)) (c0 + c1 * (10 / 28)) := by
+  obtain ⟨_, _, _, _, _, _, _, _, _, _, a1, a2, _, _, _, _, _, _, _, _, _, _, e1, e2⟩ := cert_exponents
+  obtain ⟨fy, vy⟩ := near_of _ _ e1 e2
+  exact pow_branch_o B c0 c1 ho _ _ _ (10 / 28) (zero_of _ a1 a2) fy (by push_cast at vy; exact vy) (by norm_num) (by norm_num)
+
+end oracle
 
 end C03
